@@ -32,8 +32,8 @@ TRUSTED = ["modelled, not verified: python-can can.Message construction (a remot
            "(SdoClient.on_response, SdoServer.on_request, NmtMaster.on_heartbeat, NmtBase/NmtSlave.on_command, "
            "EmcyConsumer.on_emcy) that log for instances tagged by the harness; the wrapped originals are not run for those",
            "connect / disconnect use python-can's virtual interface and a real Notifier thread; no frame travels on that bus",
-           "the dlc of a periodic message after update() is compared with the model only, not judged by the oracle "
-           "(python-can keeps the construction-time dlc; notes/C10.md Round 3)"]
+           "python-can does not recompute dlc when .data is assigned; PeriodicMessageTask.update sets it (fix 7181830), "
+           "the oracle demands dlc = len(data) of every updated message"]
 ASSUMPTIONS = ["callbacks are identities in the model (the harness uses real bound methods, equal but not identical at every use, "
                "for node callbacks and for even-numbered user callbacks, plain functions for odd-numbered ones)",
                "callbacks do not raise and do not modify subscriptions while being invoked",
@@ -456,14 +456,7 @@ def oracle_hist(c, o):
     return None
 
 
-# update() assigns msg.data and python-can keeps the dlc given at construction, so after an update
-# with a payload of another length dlc != len(data) ON THE UNCHANGED TREE (notes/C10.md, Round 3).
-# The property text names id, data, remote flag and format; the dlc of updated frames is therefore
-# compared with the model only (which has the stale dlc) and not judged here.  Set to True to judge it.
-JUDGE_UPDATE_DLC = False
-
-
-def _frame_fail(c, fr, what, judge_dlc=True):
+def _frame_fail(c, fr, what):
     cid, data, remote = c["id"], bytes(c["data"]), bool(c["remote"])
     if not isinstance(fr, list) or len(fr) != 6:
         return ("frame_missing", f"{what}: {fr!r}")
@@ -475,7 +468,7 @@ def _frame_fail(c, fr, what, judge_dlc=True):
         return ("frame_extended_flag", f"{what}: extended={fr[3]} for id {cid:#x}")
     if fr[4]:
         return ("frame_error_flag", f"{what}: error frame for id {cid:#x}")
-    if not remote and (fr[1] != data or (judge_dlc and fr[5] != len(data))):
+    if not remote and (fr[1] != data or fr[5] != len(data)):
         # a remote frame has no data field: python-can discards the payload (documented in notes/C10.md)
         return ("frame_data", f"{what}: data {fr[1]!r} dlc {fr[5]} for {data!r}")
     return None
@@ -517,11 +510,11 @@ def oracle(c, o):
         if f: return f
         for i, (d, (msg, calls)) in enumerate(zip(c["updates"], o[1])):
             cu = dict(c, data=d)
-            f = _frame_fail(cu, msg, f"task.msg after update #{i + 1}", judge_dlc=JUDGE_UPDATE_DLC)
+            f = _frame_fail(cu, msg, f"task.msg after update #{i + 1}")
             if f: return (f[0] + "_after_update", f[1])
             for call in calls:
                 if call[0] in (0, 2):
-                    f = _frame_fail(cu, call[1], f"message handed to the bus by update #{i + 1}", judge_dlc=JUDGE_UPDATE_DLC)
+                    f = _frame_fail(cu, call[1], f"message handed to the bus by update #{i + 1}")
                     if f: return (f[0] + "_after_update", f[1])
         return None
     raise ValueError(k)
